@@ -348,7 +348,7 @@ func encDefault(v interface{}) uint64 {
 	return encNum(strings.Trim(s, "'"))
 }
 
-var reExpr = regexp.MustCompile(`^\(\(([a-z0-9]+) \+ 1\)\)$`)
+var reExpr = regexp.MustCompile("^\\(\\(`?([a-z0-9]+)`? \\+ 1\\)\\)$")
 
 // encExpr: the EXPRESSION of a functional key part ((c + 1)) as its source column.
 func encExpr(v interface{}) uint64 {
@@ -559,6 +559,9 @@ type rTbl struct {
 	// causes of known defects, remembered to derive narrow signatures
 	pkGarbled      bool
 	renamedWithIdx bool
+	// a primary key column was renamed while secondary indexes existed: ADD FOREIGN KEY towards this table panics in
+	// the engine (the memory Index keeps a stale table pointer); such statements are not generated
+	pkRenamedWithIdx bool
 }
 type rFK struct {
 	Table, Parent string
@@ -582,10 +585,13 @@ type refT struct {
 	Views  map[string]*rView
 	Trigs  []*rTrig // trigger names are not unique in the engine; the reference keeps what was accepted
 	Procs  map[string]int
+	// listing defects that leave reference and catalog in step: reported once per history, then muted so that the
+	// rest of the history is still checked
+	muted map[string]bool
 }
 
 func newRef() *refT {
-	return &refT{Tables: map[string]*rTbl{}, FKs: map[string]*rFK{}, Views: map[string]*rView{}, Procs: map[string]int{}}
+	return &refT{Tables: map[string]*rTbl{}, FKs: map[string]*rFK{}, Views: map[string]*rView{}, Procs: map[string]int{}, muted: map[string]bool{}}
 }
 
 func idxOf(l []string, s string) int {
@@ -711,14 +717,21 @@ func (r *refT) apply(o opT) {
 				delete(t.Idx, n)
 			}
 		}
-		for n, k := range t.Chk {
-			if k.Col == o.C {
+		hasFn := false
+		for _, i := range t.Idx {
+			hasFn = hasFn || i.Fn != ""
+		}
+		for n, k := range t.Chk { // (with a functional index the engine leaves the checks of a dropped column behind)
+			if k.Col == o.C && !hasFn {
 				delete(t.Chk, n)
 			}
 		}
 	case "RenameColumn":
 		if j := idxOf(t.PK, o.C); j >= 0 && len(t.PK) >= 2 {
 			t.pkGarbled = true
+		}
+		if idxOf(t.PK, o.C) >= 0 && len(t.Idx) > 0 {
+			t.pkRenamedWithIdx = true
 		}
 		t.col(o.C).Name = o.C2
 		renameIn(t.PK, o.C, o.C2)
@@ -904,9 +917,15 @@ func (r *refT) check(o obsT, crossOnly bool) *failure {
 				return &failure{"listing-error/SHOW CREATE TABLE", "SHOW CREATE TABLE / SHOW INDEXES " + n + " failed"}
 			}
 			a, b, c2, d := keyOf(sc.Rows[0]), order(o.Statistics.Rows, 0, 2, 3, 4), order(o.ShowIndexes[n].Rows, -1, 2, 3, 4), order(o.KCU.Rows, 1, 0, 3, 2)
-			if a != b || b != c2 || c2 != d {
+			if (a != b || b != c2 || c2 != d) && !r.muted["pk-order"] {
 				diffVals = map[uint64]bool{enc(n): true}
-				return &failure{tableCause("pk-order/show-create-vs-statistics-vs-show-indexes-vs-kcu"),
+				sig := "pk-order/show-create-vs-statistics-vs-show-indexes-vs-kcu"
+				for _, ix := range r.Tables[n].Idx {
+					if ix.Fn != "" && b == c2 && c2 == d {
+						sig = "pk-order/show-create-table/column-order-when-functional-index-present"
+					}
+				}
+				return &failure{tableCause(sig),
 					fmt.Sprintf("%s: PRIMARY KEY parts: SHOW CREATE TABLE [%s], STATISTICS [%s], SHOW INDEXES [%s], KEY_COLUMN_USAGE [%s]", n, a, b, c2, d)}
 			}
 		}
@@ -936,7 +955,7 @@ func (r *refT) check(o obsT, crossOnly bool) *failure {
 				if row[0] != ic[1] || row[1] != ic[4] || row[2] != ic[3] || row[4] != ic[6] || row[5] != ic[7] {
 					return &failure{"mismatch/SHOW COLUMNS-vs-COLUMNS", fmt.Sprintf("%s: SHOW COLUMNS %v, COLUMNS %v", n, row, ic)}
 				}
-				if row[3] != ic[5] {
+				if row[3] != ic[5] && !r.muted["column-key"] {
 					kn := []string{"none", "PRI", "UNI", "MUL"}
 					diffVals = map[uint64]bool{enc(n): true}
 					return &failure{tableCause(fmt.Sprintf("column-key/show-%s/is-%s", kn[row[3]%4], kn[ic[5]%4])),
@@ -948,7 +967,7 @@ func (r *refT) check(o obsT, crossOnly bool) *failure {
 				} else if ic[4] == 4 {
 					isColl = 2
 				}
-				if row[6] != isColl {
+				if row[6] != isColl && !r.muted["show-full-columns"] {
 					sig := "mismatch/SHOW FULL COLUMNS-collation"
 					if row[6] == 1 && isColl == 2 {
 						sig = "show-full-columns/collation-always-server-default"
@@ -957,14 +976,14 @@ func (r *refT) check(o obsT, crossOnly bool) *failure {
 				}
 			}
 			noSub := []int{0, 1, 2, 3, 4, 5, 7}
-			if !sameKeys(keys(si.Rows, noSub), keys(isStats, noSub)) {
+			if !sameKeys(keys(si.Rows, noSub), keys(isStats, noSub)) && !(r.muted["show-indexes"] && sameKeys(keys(si.Rows, noSub[1:]), keys(isStats, noSub[1:]))) {
 				sig := "mismatch/SHOW INDEXES-vs-STATISTICS"
 				if r.Tables[n].renamedWithIdx && sameKeys(keys(si.Rows, noSub[1:]), keys(isStats, noSub[1:])) {
 					sig = "show-indexes/stale-table-name-after-rename-table"
 				}
 				return &failure{sig, fmt.Sprintf("%s: SHOW INDEXES %v, STATISTICS %v", n, si.Rows, isStats)}
 			}
-			if !sameKeys(keys(si.Rows, []int{2, 3, 6}), keys(isStats, []int{2, 3, 6})) {
+			if !sameKeys(keys(si.Rows, []int{2, 3, 6}), keys(isStats, []int{2, 3, 6})) && !r.muted["show-indexes-sub-part"] {
 				return &failure{"show-indexes/sub-part-not-reported", fmt.Sprintf("%s: Sub_part of SHOW INDEXES %v, SUB_PART of STATISTICS %v", n, si.Rows, isStats)}
 			}
 		}
@@ -1192,7 +1211,7 @@ func (r *refT) check(o obsT, crossOnly bool) *failure {
 	}
 	if f := cmp("TRIGGERS.ACTION_ORDER", o.Triggers, []int{0, 2, 3}, wantOrder, func(string) string {
 		return "triggers/action-order-counted-across-tables"
-	}); f != nil {
+	}); f != nil && !r.muted["triggers"] {
 		tabs := map[string]bool{}
 		for _, g := range r.Trigs {
 			tabs[g.Table] = true
@@ -1324,7 +1343,7 @@ func genOp(r *lib.RNG, ref *refT) opT {
 		for k := 0; k < 3 && p == t; k++ {
 			p = pickT()
 		}
-		if p == t {
+		if pb := ref.Tables[p]; p == t || (pb != nil && pb.pkRenamedWithIdx) {
 			return genCreate(r, ref)
 		}
 		o := opT{Kind: "AddFK", T: t, U: lib.Pick(r, fkUniverse), Parent: p}
@@ -1458,6 +1477,19 @@ func newEngine() *eng.S {
 	return s
 }
 
+// muteClass: defects of one listing against another that do not put the reference out of step.
+func muteClass(sig string) string {
+	for _, p := range []struct{ prefix, cls string }{
+		{"column-key/", "column-key"}, {"show-full-columns/collation", "show-full-columns"},
+		{"show-indexes/stale-table-name", "show-indexes"}, {"show-indexes/sub-part", "show-indexes-sub-part"},
+		{"pk-order/show-create-table/", "pk-order"}, {"triggers/action-order", "triggers"}} {
+		if strings.HasPrefix(sig, p.prefix) {
+			return p.cls
+		}
+	}
+	return ""
+}
+
 // snapshot reads the catalog through a path independent of information_schema and of the SHOW statements under
 // test: the provider's table names and SHOW CREATE TABLE of every name of the table universe (columns, keys, foreign keys, checks).
 func snapshot(s *eng.S) string {
@@ -1488,6 +1520,7 @@ func runCase(c *lib.Ctx, ops []opT, r *lib.RNG, n int) {
 	var cs caseT
 	var steps []string
 	var fail *failure
+	var soft []*failure // non-blocking listing defects, one per class and history
 	cut := false
 	prevSnap := snapshot(s)
 	accepted := 0
@@ -1529,8 +1562,19 @@ func runCase(c *lib.Ctx, ops []opT, r *lib.RNG, n int) {
 				cut = true
 				c.Count("history-cut/rejected-statement-with-effect/" + o.Kind)
 			}
-			if f := ref.check(ob, cut); f != nil {
-				fail = &failure{f.sig, "after `" + o.SQL() + "`: " + f.what}
+			for tries := 0; tries < 8; tries++ {
+				f := ref.check(ob, cut)
+				if f == nil {
+					break
+				}
+				f = &failure{f.sig, "after `" + o.SQL() + "`: " + f.what}
+				if cls := muteClass(f.sig); cls != "" {
+					soft = append(soft, f)
+					ref.muted[cls] = true
+					continue
+				}
+				fail = f
+				break
 			}
 		}
 		prevSnap = snap
@@ -1547,6 +1591,9 @@ func runCase(c *lib.Ctx, ops []opT, r *lib.RNG, n int) {
 	c.Count(fmt.Sprintf("accepted_statements_%02d", accepted))
 	id := c.Case(lib.CoqList(steps), cs, key)
 	c.PredChecked()
+	for _, f := range soft {
+		c.PredFail(id, f.sig, f.what, cs)
+	}
 	if fail != nil {
 		c.PredFail(id, fail.sig, fail.what, cs)
 	}
